@@ -4,10 +4,10 @@ import (
 	"bytes"
 	"encoding/json"
 	"fmt"
+	"strconv"
 	"strings"
 	"time"
 
-	"git.sr.ht/~mariusor/go-xsd-duration"
 	"github.com/go-ap/jsonld"
 )
 
@@ -90,13 +90,49 @@ func JSONWriteTimeProp(b *[]byte, n string, t time.Time) (notEmpty bool) {
 	return JSONWriteProp(b, n, tb)
 }
 
+// xsdDuration formats d as an xsd:duration using the day and time designators only.
+// The year and month designators have no fixed length, and xsd.Marshal rounds a remainder of 28-29 days
+// up to a month and one of 336-355 days up to a year, so that the value read back differs from the one written.
+func xsdDuration(d time.Duration) []byte {
+	if d == 0 {
+		return []byte("PT0S")
+	}
+	v := make([]byte, 0, 24)
+	if d < 0 {
+		v = append(v, '-')
+		d = -d
+	}
+	v = append(v, 'P')
+	if days := d / (24 * time.Hour); days > 0 {
+		v = strconv.AppendInt(v, int64(days), 10)
+		v = append(v, 'D')
+		d -= days * 24 * time.Hour
+	}
+	if d > 0 {
+		v = append(v, 'T')
+		if h := d / time.Hour; h > 0 {
+			v = strconv.AppendInt(v, int64(h), 10)
+			v = append(v, 'H')
+			d -= h * time.Hour
+		}
+		if m := d / time.Minute; m > 0 {
+			v = strconv.AppendInt(v, int64(m), 10)
+			v = append(v, 'M')
+			d -= m * time.Minute
+		}
+		if d > 0 {
+			v = strconv.AppendFloat(v, d.Seconds(), 'f', -1, 64)
+			v = append(v, 'S')
+		}
+	}
+	return v
+}
+
 func JSONWriteDurationProp(b *[]byte, n string, d time.Duration) (notEmpty bool) {
 	var tb []byte
-	if v, err := xsd.Marshal(d); err == nil {
-		JSONWrite(&tb, '"')
-		JSONWrite(&tb, v...)
-		JSONWrite(&tb, '"')
-	}
+	JSONWrite(&tb, '"')
+	JSONWrite(&tb, xsdDuration(d)...)
+	JSONWrite(&tb, '"')
 	return JSONWriteProp(b, n, tb)
 }
 
